@@ -49,5 +49,19 @@ let handle (toks : Stdlib.String.t list) : Stdlib.String.t =
   | ["strip"; s] -> show_cps (strip (cps_of s))
   | ["tobytes"; s] -> hex_of_bytes (to_lossy_bytes enc (cps_of s))
   | ["tostring"; h] -> show_cps (to_lossy_string dec (bytes_of_hex h))
+  | ["oraclecheck"] ->
+      (* the Section hypotheses of the round-trip theorem that tie the scanner's lead-byte classification (regenerated from
+         is_double_byte_lead) and the ^8 table to the code tables: counted violations over every table entry *)
+      load ();
+      let l2 = ref 0 and l1 = ref 0 and pr = ref 0 in
+      Hashtbl.iter (fun (l, _) w ->
+        match w with
+        | [b1; _] -> if not (lead (n_of_int l) b1) then incr l2
+        | [b1] -> if lead (n_of_int l) b1 then incr l1
+        | _ -> ()) enc_tab;
+      let p = int_of_n gen_propagate_letter and d = int_of_n gen_default_codepage in
+      Hashtbl.iter (fun (l, bs) c -> if l = p then (match Hashtbl.find_opt dec_tab (d, bs) with Some c' when c' = c -> () | _ -> incr pr)
+                                     else if l = d then (match Hashtbl.find_opt dec_tab (p, bs) with Some c' when c' = c -> () | _ -> incr pr)) dec_tab;
+      Printf.sprintf "oracle lead2:%d lead1:%d prop:%d" !l2 !l1 !pr
   | _ -> "?bad-op"
 let () = main handle
